@@ -59,8 +59,10 @@ func (c *ExecCtx) evalCall(st *State, call *ast.CallExpr) []Val {
 				}
 				if fn != nil && c.isNoEffect(fn) {
 					sig := fn.Type().(*types.Signature)
-					c.evalArgs(st, call, sig, nil)
-					return c.freshResults(st, sig, fn, false)
+					nargs := c.evalArgs(st, call, sig, nil)
+					nres := c.freshResults(st, sig, fn, false)
+					c.ctxDerive(st, fn, nargs, nres)
+					return nres
 				}
 				rv := c.evalRecvFor(st, f, sel)
 				recv = &rv
@@ -105,6 +107,7 @@ func (c *ExecCtx) evalCall(st *State, call *ast.CallExpr) []Val {
 	c.runBeforeCallAnchors(st, fn, call, recv, args)
 	c.instSig = sig // (after the arguments: nested generic calls set their own)
 	res := c.dispatch(st, fn, recv, args, call.Pos(), call)
+	c.ctxDerive(st, fn, args, res)
 	// context contract: once Done() has delivered, Err() is non-nil
 	if fn.FullName() == "(context.Context).Err" && recvExpr != nil && len(res) == 1 {
 		st.assumeT(Imp(st.tagTerm("recv:"+exprString(recvExpr)+".Done()"), Ne(res[0].T, IntLit(0))))
@@ -695,6 +698,39 @@ func countStmts(b *ast.BlockStmt) int {
 }
 
 // freshResults returns unconstrained results (with type facts).
+// ctxDerive: convention of every dependency API (context.WithX, tracers,
+// spans): a function that takes one context and returns a context returns one
+// DERIVED from it - cancellation of the argument reaches the result.
+// (ASSUMED; context.WithoutCancel is the documented exception.)
+func (c *ExecCtx) ctxDerive(st *State, fn *types.Func, args []Val, res []Val) {
+	if fn == nil || fn.Pkg() == nil || inModule(fn.Pkg()) || fn.FullName() == "context.WithoutCancel" {
+		return
+	}
+	if len(res) == 0 || !isContextType(res[0].Ty) || res[0].T == nil || res[0].T.Sort != SInt {
+		return
+	}
+	var ctxArg *Term
+	n := 0
+	for _, a := range args {
+		if isContextType(a.Ty) && a.T != nil && a.T.Sort == SInt {
+			ctxArg = a.T
+			n++
+		}
+	}
+	if n == 1 {
+		c.u.eng.d.Fun("sf_ctxRoot", []string{SInt}, SInt)
+		st.assumeT(Eq(App("sf_ctxRoot", SInt, res[0].T), App("sf_ctxRoot", SInt, ctxArg)))
+	}
+}
+
+func isContextType(t types.Type) bool {
+	if t == nil {
+		return false
+	}
+	n, ok := unalias(t).(*types.Named)
+	return ok && n.Obj() != nil && n.Obj().Pkg() != nil && n.Obj().Pkg().Path() == "context" && n.Obj().Name() == "Context"
+}
+
 func (c *ExecCtx) freshResults(st *State, sig *types.Signature, fn *types.Func, _ bool) []Val {
 	var out []Val
 	for i := 0; i < sig.Results().Len(); i++ {
